@@ -139,6 +139,20 @@ def decomposition_protocols():
         out.append(Proto(f"KernelPCovR[precomputed kernel,center={center}]", "skmatter.decomposition.KernelPCovR", {"mixing": scalar("alpha", 0, 1, True, True), "n_components": integer("K"), "svd_solver": "full", "center": center, "kernel": "precomputed"}, steps, assume=assume_default, order=[("K", "<=", "N")]))
     X, Y = XY(y1d=True)
     out.append(Proto("KernelPCovR[1-D y]", "skmatter.decomposition.KernelPCovR", {"mixing": scalar("alpha", 0, 1, True, True), "n_components": integer("K"), "svd_solver": "full"}, [("fit", (X, Y), {}), ("predict", (arr("Xv", "V", "M"),), {})], assume=assume_default, order=[("K", "<=", "N")]))
+    # a single target given as a vector, crossed with centring and the regressor kind
+    for center in (False, True):
+        for reg in ("default", "precomputed", "precomputedW"):
+            if (center, reg) == (False, "default"):
+                continue
+            X, Y = XY(y1d=True)
+            ctor = {"mixing": scalar("alpha", 0, 1, True, True), "n_components": integer("K"), "svd_solver": "full", "center": center}
+            fit_kw = {}
+            if reg.startswith("precomputed"):
+                ctor["regressor"] = "precomputed"
+                if reg.endswith("W"):
+                    fit_kw = {"W": arr("W", "N")}
+            Xv, Yv = XY(n="V", sfx="v", y1d=True)
+            out.append(Proto(f"KernelPCovR[1-D y,center={center},{reg}]", "skmatter.decomposition.KernelPCovR", ctor, [("fit", (X, Y), fit_kw), ("predict", (Xv,), {}), ("score", (Xv, Yv), {})], assume=assume_default, order=[("K", "<=", "N")]))
     return out
 
 
